@@ -574,7 +574,7 @@ class Exec:
         for s1, vs in states:
             s1 = s1.copy()
             ann = getattr(self, "pending_ann", None)
-            if all(v.ty[0] == "str" and v.py is not None for v in vs) and not (ann and ann[0] == "list"):
+            if all((v.ty[0] == "str" and v.py is not None) or v.ty[0] == "none" for v in vs) and not (ann and ann[0] == "list"):
                 out.append((s1, V(("pylist",), py=vs)))      # literal list of constants: only used with `in`
                 continue
             ety = ann[1] if ann and ann[0] == "list" else vs[0].ty
